@@ -459,6 +459,21 @@ def check(case):
     r = judge(vconn, vout, "victim(%s)" % vic, 0, p.link, vic, labels)
     if r:
         return bad(r[0], r[1] + " | case=%r" % (case,), labels=labels)
+    cache = server.get("sessionCache")
+    if cache is not None and vic == "s" and vout.state == "exc" and \
+            vconn.session is not None and vconn.session.sessionID and \
+            not isinstance(vout.exc, TLSClosedConnectionError):
+        # (a resumed connection shares its session with the cache: the
+        # failure must reach the entry the next client would resume)
+        try:
+            still = cache[vconn.session.sessionID]
+        except KeyError:
+            still = None
+        if still is not None and still.resumable:
+            return bad("cached-session-resumable-after-failure",
+                       "victim failed with %s; cache still hands out a "
+                       "resumable session | case=%r" % (
+                           describe_exc(vout.exc), case), labels=labels)
     # the deviant's own honest machinery receives whatever the victim
     # answered (alerts, garbage-induced replies): same clauses, no alert
     # requirement on its own bookkeeping errors caused by our wrapper
@@ -543,8 +558,11 @@ def check_raw(case):
         side = "c"
     else:
         # established connection: garbage instead of records
-        client, server = opts_for("tls12-rsa" if case.get("v12") else
-                                  "tls13")
+        fl = "tls12-rsa" if case.get("v12") else "tls13"
+        if case.get("res"):
+            fl = "tls12-resume-sid" if case.get("v12") else "tls13-psk"
+            labels.append("resumed-connection")
+        client, server = opts_for(fl)
         p = sc.connect(client, server)
         if not p.both_ok:
             raise BaselineBroken("raw-established", "%r %r" % (p.co, p.so))
@@ -564,6 +582,20 @@ def check_raw(case):
         if r:
             return bad(r[0] + ":established", r[1] + " | data=%s" %
                        data.hex()[:120], labels=labels)
+        cache = server.get("sessionCache")
+        if cache is not None and o.state == "exc" and p.s.session and \
+                p.s.session.sessionID and not (
+                    case.get("ign") and isinstance(o.exc, type(None))):
+            try:
+                still = cache[p.s.session.sessionID]
+            except KeyError:
+                still = None
+            if still is not None and still.resumable and not isinstance(
+                    o.exc, TLSClosedConnectionError):
+                return bad("cached-session-resumable-after-failure:"
+                           "established", "server read failed with %s; the "
+                           "cache still hands out a resumable session" %
+                           describe_exc(o.exc), labels=labels)
         return good(labels=labels + ["out=" + (describe_exc(o.exc) if o.exc
                                                else o.state)])
     # handshake targets: let the endpoint speak first, then feed the bytes
@@ -612,6 +644,7 @@ def fuzz_case(data):
     if t == "established":
         c["v12"] = bool((data[0] // 3) % 2)
         c["ign"] = bool((data[0] // 6) % 2)
+        c["res"] = bool((data[0] // 12) % 2)
     return c
 
 
@@ -705,6 +738,7 @@ def cases(draw, tier):
         if target == "established":
             c["v12"] = draw(st.booleans())
             c["ign"] = draw(st.booleans())
+            c["res"] = draw(st.booleans())
         return c
     fl = draw(st.sampled_from([f for f in FL_NAMES if f != "any"]))
     return {"fl": fl, "side": draw(st.sampled_from(["c", "s"])),
@@ -770,8 +804,9 @@ def explicit(tier, seed):
         for ign in (False, True):
             for hx in ("", "17", "1703", "1703030010", "170303001000",
                        "1703030010" + "ab" * 16, "ff" * 7):
-                yield {"raw": "established", "base": False, "hex": hx,
-                       "v12": v12, "ign": ign}
+                for res in (False, True):
+                    yield {"raw": "established", "base": False, "hex": hx,
+                           "v12": v12, "ign": ign, "res": res}
     fixed = [["empty"], ["zero"], ["trunc", 0], ["extend", 0],
              ["hugelen", 7], ["flip", 0, 0xff], ["setlen", 0, 2, "max"],
              ["setlen", 0, 1, "zero"], ["vec", 0, "empty", 0],
